@@ -267,3 +267,81 @@ Proof.
   refine (gint_ext _ _ _ _ _ eq_refl (base_T1_integral al be A B 0 1 i j Ha Hb)).
   intro x. cbn [pow]. ring.
 Qed.
+
+(* ------------------------------------------------------------------ *)
+(* 5. three dimensions: mixed partial derivatives of the right primitive *)
+(* ------------------------------------------------------------------ *)
+(* the mixed partial derivative d^ox/dx^ox d^oy/dy^oy d^oz/dz^oz G at (x, y, z), by Coquelicot's Derive_n *)
+Definition pd3 (ox oy oz : nat) (G : R -> R -> R -> R) (x y z : R) : R :=
+  Derive_n (fun x' => Derive_n (fun y' => Derive_n (fun z' => G x' y' z') oz z) oy y) ox x.
+
+Lemma pd3_cprim ox oy oz be Bx By Bz cb x y z :
+  pd3 ox oy oz (cprim be Bx By Bz cb) x y z
+  = Derive_n (cg1 be Bx (cx cb)) ox x * Derive_n (cg1 be By (cy cb)) oy y
+    * Derive_n (cg1 be Bz (cz cb)) oz z.
+Proof.
+  unfold pd3.
+  set (gx := cg1 be Bx (cx cb)). set (gy := cg1 be By (cy cb)). set (gz := cg1 be Bz (cz cb)).
+  transitivity (Derive_n (fun x' => gx x' * (Derive_n gy oy y * Derive_n gz oz z)) ox x).
+  - apply Derive_n_ext. intro x'.
+    transitivity (Derive_n (fun y' => gy y' * (gx x' * Derive_n gz oz z)) oy y).
+    + apply Derive_n_ext. intro y'.
+      transitivity (Derive_n (fun z' => (gx x' * gy y') * gz z') oz z).
+      * apply Derive_n_ext. intro z'. apply cprim_split.
+      * rewrite Derive_n_scal_l. ring.
+    + rewrite Derive_n_scal_r. ring.
+  - rewrite Derive_n_scal_r. ring.
+Qed.
+
+(* every differential-operator primitive: iterated integral of phi_a d^o phi_b = dprim of CoreDiffP.v *)
+Theorem dprim_3d_integral (o : Shell.comp) (sa sb : shell R) (ca cb : Shell.comp) (al be : R) :
+  0 < al -> 0 < be ->
+  gint3 (fun x y z => sprim sa al ca x y z * pd3 (cx o) (cy o) (cz o) (sprim sb be cb) x y z)
+        (dprim RK o sa sb ca cb al be).
+Proof.
+  intros Ha Hb.
+  pose proof (deriv_1d_integral al be (s_x sa) (s_x sb) (cx o) (cx ca) (cx cb) Ha Hb) as Hx.
+  pose proof (deriv_1d_integral al be (s_y sa) (s_y sb) (cy o) (cy ca) (cy cb) Ha Hb) as Hy.
+  pose proof (deriv_1d_integral al be (s_z sa) (s_z sb) (cz o) (cz ca) (cz cb) Ha Hb) as Hz.
+  refine (gint3_ext _ _ _ _ _ eq_refl (gint3_prod _ _ _ _ _ _ Hx Hy Hz)).
+  intros x y z. unfold sprim. rewrite pd3_cprim, cprim_split. ring.
+Qed.
+
+(* Laplacian *)
+Definition lap3 (G : R -> R -> R -> R) (x y z : R) : R :=
+  pd3 2 0 0 G x y z + pd3 0 2 0 G x y z + pd3 0 0 2 G x y z.
+
+(* kinetic energy: iterated integral of phi_a (-1/2 Laplacian) phi_b = kin_prim of CoreDiffP.v *)
+Theorem kinetic_prim_3d_integral (sa sb : shell R) (ca cb : Shell.comp) (al be : R) :
+  0 < al -> 0 < be ->
+  gint3 (fun x y z => sprim sa al ca x y z * (- (1 / 2) * lap3 (sprim sb be cb) x y z))
+        (kin_prim RK sa sb ca cb al be).
+Proof.
+  intros Ha Hb.
+  pose proof (dprim_3d_integral (2, 0, 0)%nat sa sb ca cb al be Ha Hb) as Hx.
+  pose proof (dprim_3d_integral (0, 2, 0)%nat sa sb ca cb al be Ha Hb) as Hy.
+  pose proof (dprim_3d_integral (0, 0, 2)%nat sa sb ca cb al be Ha Hb) as Hz.
+  refine (gint3_ext _ _ _ _ _ _
+            (gint3_scal (- (1 / 2)) _ _ (gint3_plus _ _ _ _ (gint3_plus _ _ _ _ Hx Hy) Hz))).
+  - intros x y z. cbv beta. unfold lap3, cx, cy, cz. cbn [fst snd]. ring.
+  - unfold kin_prim, dprim, S1, cx, cy, cz. cbn [fst snd].
+    rewrite !D1_0.
+    change (fmul RK) with Rmult. change (fadd RK) with Rplus. change (fdiv RK) with Rdiv.
+    change (fopp RK) with Ropp. change (f1 RK) with 1. field.
+Qed.
+
+(* momentum (the real matrix R of the value -i R): iterated integral of phi_a d/dx_i phi_b *)
+Theorem momentum_prim_3d_integral (sa sb : shell R) (ca cb : Shell.comp) (al be : R) :
+  0 < al -> 0 < be ->
+  gint3 (fun x y z => sprim sa al ca x y z * pd3 1 0 0 (sprim sb be cb) x y z)
+        (mom_x_prim RK sa sb ca cb al be) /\
+  gint3 (fun x y z => sprim sa al ca x y z * pd3 0 1 0 (sprim sb be cb) x y z)
+        (mom_y_prim RK sa sb ca cb al be) /\
+  gint3 (fun x y z => sprim sa al ca x y z * pd3 0 0 1 (sprim sb be cb) x y z)
+        (mom_z_prim RK sa sb ca cb al be).
+Proof.
+  intros Ha Hb. split; [|split].
+  - exact (dprim_3d_integral (1, 0, 0)%nat sa sb ca cb al be Ha Hb).
+  - exact (dprim_3d_integral (0, 1, 0)%nat sa sb ca cb al be Ha Hb).
+  - exact (dprim_3d_integral (0, 0, 1)%nat sa sb ca cb al be Ha Hb).
+Qed.
